@@ -126,7 +126,7 @@ impl Ctx {
         if !self.calcs.contains_key(cfg) {
             let c = seam::guarded(|| cfg.build()).expect("SmartCalc::default() panicked").expect("configuration rejected");
             self.built += 1;
-            if self.calcs.len() > 512 {
+            if self.calcs.len() > 48 {
                 self.calcs.clear();
             }
             self.calcs.insert(cfg.clone(), c);
